@@ -99,6 +99,7 @@ type algo struct {
 	tokSrc      map[string]string // local of type token -> the Code expression it was asserted from
 	tokOpt      map[string]string // … "O" when that expression is an Option Code
 	allowShadow bool
+	fileVar     string // entry points: the name of the *File parameter (rendered as `f`)
 }
 
 type aenv map[string]aty
@@ -213,6 +214,9 @@ func (a *algo) expr(e ast.Expr, env aenv) (string, aty) {
 			return "f", tFile
 		case "nil":
 			return "()", tNil
+		}
+		if a.fileVar != "" && x.Name == a.fileVar {
+			return "f", tFile
 		}
 		if x.Name == a.reservedVar {
 			return "Gen.reserved", tSliceStr
@@ -458,6 +462,9 @@ func (a *algo) args(x *ast.CallExpr, env aenv, want ...aty) []string {
 }
 
 func (a *algo) call(x *ast.CallExpr, env aenv) (string, aty) {
+	if v, ok := a.bufBytes(x, env); ok {
+		return v, tStr
+	}
 	fun := strings.Join(strings.Fields(nodeStr(x.Fun)), "")
 	switch fun {
 	case "len":
@@ -1681,6 +1688,10 @@ func (a *algo) translate(key string) {
 		a.translateRender(key)
 		return
 	}
+	if isEffectTarget(key) {
+		a.translateEffect(key)
+		return
+	}
 	env := aenv{}
 	var params []string
 	if d.Recv != nil && len(d.Recv.List) == 1 {
@@ -1811,7 +1822,9 @@ var algoTargets = []string{".IsReservedWord", "File.isLocal", "File.isValidAlias
 	// null-ness (open recursion through the Code interface: `recNull`)
 	"token.isNull", "comment.isNull", "Group.isNullItems", "Group.isNull", "Statement.isNull", "Dict.isNull",
 	// the render methods of Statement and Group (algo_render.go)
-	"Statement.render", "Group.renderItems", "Group.render"}
+	"Statement.render", "Group.renderItems", "Group.render",
+	// the entry points, with the environment as a parameter (algo_effect.go)
+	"File.Render", "Statement.RenderWithFile", "Group.RenderWithFile", "File.Save"}
 
 func translateAlgorithms(fns []fn, reservedVar, stdVar string) (lean string, summary string) {
 	a := &algo{fns: map[string]*ast.FuncDecl{}, reservedVar: reservedVar, stdVar: stdVar, mutates: map[string]bool{}, needsFuel: map[string]bool{}, needsLib: map[string]bool{}, needsRec: map[string]bool{},
